@@ -116,14 +116,15 @@ def c17_rejects(ctx):
 
 def _cfg_launch(tier):
     return [{'powder_given': g, 'use': u} for g in (True, False) for u in (True, False)] + \
-        [{'powder_given': True, 'use': True, 'bare_unit': tu} for tu in TEMP_UNITS]      # powder temperature as a bare number (0 included)
+        [{'powder_given': True, 'use': True, 'bare_unit': tu} for tu in TEMP_UNITS] + \
+        [{'powder_given': False, 'use': True, 'vacuum': True}]      # powder temperature as a bare number (0 included); a Vacuum built with an air temperature
 
 
 @harness('C17.launch', 'C17', configs=_cfg_launch, functions=FUNCS, must_reach=['check:launch_velocity'],
          bounds='loop-free: all air / powder temperatures in [-60,60] (C, or the bare number in each preferred temperature unit, 0 included); powder temperature given as quantity / bare number / defaulted; sensitivity on/off',
          stubs=['math.sqrt/exp/pow summarised inside Atmo (not part of the obligation)'],
          engine_opts={'div_check': False})
-def c17_launch(ctx, powder_given, use, bare_unit=None):
+def c17_launch(ctx, powder_given, use, bare_unit=None, vacuum=False):
     p = pybc()
     from py_ballisticcalc.trajectory_calc._trajectory_calc import TrajectoryCalc
     from py_ballisticcalc.interface_config import create_interface_config
@@ -131,7 +132,9 @@ def c17_launch(ctx, powder_given, use, bare_unit=None):
     mod = ctx.real('modifier', -10, 10)
     air = ctx.real('air_c', -60, 60)
     pw = ctx.real('powder_c', -60, 60)
-    if bare_unit is None:
+    if vacuum:
+        atmo = p.Vacuum(p.Distance.Foot(0), p.Temperature.Celsius(air))       # no air, but the powder is as warm as the surroundings given
+    elif bare_unit is None:
         atmo = p.Atmo(p.Distance.Foot(0), p.Pressure.InHg(29.92), p.Temperature.Celsius(air), 0.0,
                       p.Temperature.Celsius(pw) if powder_given else None)
     else:
